@@ -5,7 +5,8 @@ RowSeqs == {<<"range", "le">>, <<"eq", "range", "ge">>, <<"le", "ge", "eq", "ran
 Extras == {"none", "abs", "logic", "abs+logic"}
 RangeModes == {"native", "slack", "linear"}
 Modes == 0..3
-Files == {"absent", "present", "short", "crlf"}
+Files == {"absent", "present", "short", "crlf",
+          "colonly", "rowonly"}      \* only one of the two name files was written
 NameSets == {"plain", "derivedlike", "genericlike", "sluglike"}
 VARIABLES rows, extra, rmode, mode, files, nameset
 Init == rows \in RowSeqs /\ extra \in Extras /\ rmode \in RangeModes /\ mode \in Modes /\ files \in Files /\ nameset \in NameSets
